@@ -1,6 +1,128 @@
-/-! Driver entry for property C20 (stub: not implemented yet). -/
-namespace HeartwoodModel.Driver.C20
+import HeartwoodModel.Model.Refs
+import HeartwoodModel.Driver.Util
+/-!
+Driver entry for C20 (signed refs). Cases:
 
-def run (_args : List String) : String := "unimplemented"
+* `rt <pairs>` — `pairs` = comma list of `<namehex>:<oid40>` (or `-`): build a `Refs` from the pairs whose
+  name is a valid `RefString`, print the canonical text and what it parses back to.
+  Output `v=<validity bits|-> c=<blob> p=<refs|err>`.
+* `parse <blobhex>` — `Refs::from_canonical`. Output `ok <refs>` | `err`.
+* `load <key32hex> <sighex|none> <blobhex|none> <sg> <local40> <ig>` — `SignedRefs::load_at`.
+  `sg` = graph of the signature predicate for this `(key, sig)`: comma list `<msghex>:<0|1>` (or `-`);
+  `ig` = graph of `identity_doc_at`: comma list `<oid40>:<rid40|none>` (or `-`).
+  Output `ok <refs>` | `err` | `no-graph-point` (the model asked for a point the case does not carry).
+
+`<refs>` = `n;name:oid,…` for up to 6 entries, `n;#<len>:<fnv1a-64 of the canonical text>` beyond;
+`<blob>` = hex up to 200 bytes, `#<len>:<fnv1a-64>` beyond.
+-/
+namespace HeartwoodModel.Driver.C20
+open HeartwoodModel.Driver.Util
+open HeartwoodModel (Refs.Bytes Refs.Oid Refs.Refs)
+
+def fnv (bs : List Nat) : Nat :=
+  bs.foldl (fun h b => ((h ^^^ (b % 256)) * 0x100000001b3) % 0x10000000000000000) 0xcbf29ce484222325
+
+def showBlob (bs : List Nat) : String :=
+  if bs.length ≤ 200 then toHex bs else s!"#{bs.length}:{fnv bs}"
+
+def showOid (o : List Nat) : String := String.ofList (o.map hexChar)
+
+def showRefs (r : Refs.Refs) : String :=
+  if r.length ≤ 6 then
+    s!"{r.length};" ++ joinWith "," (r.map fun (n, o) => (if n.isEmpty then "" else toHex n) ++ ":" ++ showOid o)
+  else
+    let c := Refs.canonical r
+    s!"{r.length};#{c.length}:{fnv c}"
+
+/-- exactly 40 hex digits → nibbles -/
+def oid? (s : String) : Option (List Nat) :=
+  if s.length != 40 then none else s.toList.mapM hexDigit?
+
+/-- hex with the empty string (not `-`) for the empty byte string (inside lists) -/
+def hexIn? (s : String) : Option (List Nat) := if s.isEmpty then some [] else if s == "-" then none else hexBytes? s
+
+def pair? (s : String) : Option (List Nat × List Nat) :=
+  match splitOn s ':' with
+  | [n, o] => do let n ← hexIn? n; let o ← oid? o; some (n, o)
+  | _ => none
+
+def list? {α} (f : String → Option α) (s : String) : Option (List α) :=
+  if s == "-" then some [] else (splitOn s ',').mapM f
+
+def optHex? (s : String) : Option (Option (List Nat)) :=
+  if s == "none" then some none else (hexBytes? s).map some
+
+def sgEntry? (s : String) : Option (List Nat × Bool) :=
+  match splitOn s ':' with
+  | [m, b] => do let m ← hexIn? m; let b ← bool? b; some (m, b)
+  | _ => none
+
+def igEntry? (s : String) : Option (List Nat × Option (List Nat)) :=
+  match splitOn s ':' with
+  | [o, r] => do
+    let o ← oid? o
+    let r ← (if r == "none" then some none else (oid? r).map some)
+    some (o, r)
+  | _ => none
+
+def showParse : Except Refs.CanonError Refs.Refs → String
+  | .ok r => "ok " ++ showRefs r
+  | .error _ => "err"
+
+def runRt (ps : List (List Nat × List Nat)) : String :=
+  let valid := ps.map fun p => Refs.validRef p.1 && Refs.utf8Valid p.1
+  let refs := Refs.ofList ((ps.zip valid).filterMap fun (p, v) => if v then some p else none)
+  let c := Refs.canonical refs
+  let p := match Refs.fromCanonical c with
+    | .ok r => showRefs r
+    | .error _ => "err"
+  let bits := if valid.isEmpty then "-" else joinWith "" (valid.map showBool)
+  s!"v={bits} c={showBlob c} p={p}"
+
+def runLoad (key : List Nat) (sig blob : Option (List Nat)) (sg : List (List Nat × Bool))
+    (localId : List Nat) (ig : List (List Nat × Option (List Nat))) : String :=
+  -- which points of the opaque functions will the model ask for?
+  let missing : Bool :=
+    match sig, blob with
+    | some sb, some rb =>
+      if sb.length != 64 then false else
+      match Refs.fromCanonical rb with
+      | .ok refs =>
+        let m := Refs.canonical refs
+        match sg.find? (fun e => e.1 == m) with
+        | none => true
+        | some (_, false) => false
+        | some (_, true) =>
+          match Refs.lookup Refs.identityRoot refs with
+          | none => false
+          | some root => (ig.find? (fun e => e.1 == root)).isNone
+      | .error _ => false
+    | _, _ => false
+  if missing then "no-graph-point" else
+  let env : Refs.Env :=
+    { sigVerify := fun k m s =>
+        k == key && some s == sig && (match sg.find? (fun e => e.1 == m) with | some (_, b) => b | none => false)
+      identityAt := fun o => match ig.find? (fun e => e.1 == o) with | some (_, r) => r | none => none
+      localId := localId }
+  match Refs.loadAt env key blob sig with
+  | .ok sr => "ok " ++ showRefs sr.refs
+  | .error _ => "err"
+
+def run (args : List String) : String :=
+  match args with
+  | ["rt", ps] =>
+    match list? pair? ps with
+    | some ps => runRt ps
+    | none => "bad-op"
+  | ["parse", b] =>
+    match hexBytes? b with
+    | some b => showParse (Refs.fromCanonical b)
+    | none => "bad-op"
+  | ["load", key, sig, blob, sg, loc, ig] =>
+    match hexBytes? key, optHex? sig, optHex? blob, list? sgEntry? sg, oid? loc, list? igEntry? ig with
+    | some key, some sig, some blob, some sg, some loc, some ig =>
+      if key.length != 32 then "bad-op" else runLoad key sig blob sg loc ig
+    | _, _, _, _, _, _ => "bad-op"
+  | _ => "bad-op"
 
 end HeartwoodModel.Driver.C20
